@@ -7,7 +7,8 @@ RULE = ('cases = (k, prefix, list of sequences, input type, accumulator). Stream
         'dense tiny alphabets; random k in 1..32 (array accumulator only for k<=10/12), prefixes of length 1..6 incl. '
         'A, AA, AT, ATAT, ACGT; alphabets {prefix letters only, ACGT, ACGT+N, mixed case, arbitrary bytes}; matches planted '
         'flush with either end; 1..5 sequences; str/bytes/bytearray/Seq/single-sequence inputs; plus find_kmers positions '
-        'and a bytes.find sub-stream. Non-trivial = distinct case whose real signature is non-empty.')
+        'and a bytes.find sub-stream; one bytearray refilled in place between consecutive searches; sequences > 2^20 nt with occurrences planted across '
+        'power-of-two offsets on either strand (reference = plain byte search, checked against the Lean model on windows). Non-trivial = distinct case whose real signature is non-empty.')
 TRUSTED = ['harness/props/c01.py + Driver/C01.lean (transport, canonicalisation)',
            'CPython bytes.find / bytes.upper modelled by bytesFind / upper (validated by the c01.bfind stream)']
 ASSUMPTIONS = ['text inputs are ASCII (str.encode("ascii") raises otherwise)']
@@ -35,6 +36,41 @@ def check(ctx, case):
 	seqs = [bytes.fromhex(h) for h in case['seqs']]
 	form = case.get('form', 'bytes')
 	acc = case.get('acc', 'default')
+	if case.get('kind') == 'buffer-reuse':
+		# ONE bytearray object refilled in place and searched again (calc_signature and find_kmers), nothing else in between:
+		# every result is the signature of the buffer's current contents
+		kspec = KmerSpec(k, pre)
+		buf = bytearray(seqs[0])
+		lines = []
+		for sq in seqs:
+			buf[:] = sq
+			sig = calc_signature(kspec, buf)
+			lines.append(f'c01.sig {k} {hx(pre)} {hexlist([sq])} {sig.dtype.itemsize} {nats(sig.tolist())}')
+			fwd, rev = [], []
+			for m in find_kmers(kspec, buf):
+				(rev if m.reverse else fwd).append(m.pos)
+			lines.append(f'c01.find {k} {hx(pre)} {hx(sq)} {nats(fwd)} {nats(rev)}')
+		case['_n'] = 1
+		return lines, []
+	if case.get('kind') == 'long':
+		# sequences longer than 2^20 with occurrences across power-of-two offsets (reference: plain byte search, itself checked
+		# against the Lean model on a window around every planted occurrence)
+		from props.c06 import materialize, ref_sig
+		kspec = KmerSpec(k, pre)
+		seq = materialize(case['long'])
+		prefix = pre.decode()
+		lines = []
+		for off, unit in case['long']['plants']:
+			win = seq[max(0, off - 40): off + len(unit) // 2 + 40]
+			lines.append(f'c01.sig {k} {hx(pre)} {hexlist([win])} {kspec.index_dtype.itemsize} {nats(ref_sig(k, prefix, win))}')
+		want = ref_sig(k, prefix, seq)
+		pf = []
+		for fm in case.get('forms', ['bytes']):
+			sig = calc_signature(kspec, _mk(seq, fm) if fm != 'single' else seq).tolist()
+			if sig != want:
+				pf.append(f'signature of a {len(seq)}-nt sequence ({fm}) is {sig[:8]}... ({len(sig)} k-mers), the k-mers present are {want[:8]}... ({len(want)}); plants at {[o for o, _ in case["long"]["plants"]]}')
+		case['_n'] = len(want)
+		return lines, pf
 	if 'bfind' in case:
 		hay, pat, start, stop = bytes.fromhex(case['bfind'][0]), bytes.fromhex(case['bfind'][1]), case['bfind'][2], case['bfind'][3]
 		r = hay.find(pat, start, stop)
@@ -170,6 +206,42 @@ def run(ctx):
 			case['after_failure'] = rng.choice(['unicode', 'type'])
 			case['acc'] = 'default'
 		sub(case, 'random')
+	# one mutable buffer refilled in place between consecutive searches (mixed case, so that a working copy is made)
+	for j in range(ctx.q(150, 1500)):
+		k = rng.randint(1, 8)
+		pre = rng.choice(PREFIXES)
+		n = rng.randint(len(pre) + k, 60)
+		sqs = []
+		for _ in range(rng.randint(2, 5)):
+			s_ = bytearray(_rand_seq(rng, n, b'ACGTacgt' if rng.random() < 0.8 else b'ACGT'))
+			unit = pre + _rand_seq(rng, k, b'ACGT')
+			if rng.random() < 0.5:
+				unit = unit.lower()
+			w = rng.randint(0, n - len(unit))
+			s_[w:w + len(unit)] = unit
+			sqs.append(bytes(s_).hex())
+		sub({'kind': 'buffer-reuse', 'k': k, 'pre': pre.hex(), 'seqs': sqs}, 'buffer-reuse')
+	# long sequences
+	from props.c06 import _COMP
+	import dbutil
+	for j in range(ctx.q(5, 40)):
+		if not ctx.time_left(0.97):
+			break
+		k, prefix = rng.choice([(11, 'ATGAC'), (11, 'ATGAC'), (7, 'ATG'), (5, 'AT')])
+		span = len(prefix) + k
+		L = 2 ** 20 + rng.randint(span + 1, 5000)
+		plants = []
+		for seam in (2 ** 16, 2 ** 17, 2 ** 19, 2 ** 20):
+			d = rng.randint(0, span + 2)
+			rev = rng.random() < 0.5
+			if seam == 2 ** 20:
+				d = [1, span - 1, 2, len(prefix) - 1 or 1, k, k + 1][j % 6] if j < 12 else d
+				rev = (j // 2) % 2 == 1 if j < 12 else rev
+			unit = prefix.encode() + dbutil.rand_dna(rng, k, b'CG')
+			if rev:
+				unit = unit.translate(_COMP)[::-1]
+			plants.append([seam - d, unit.hex()])
+		sub({'kind': 'long', 'k': k, 'pre': prefix.encode().hex(), 'seqs': [], 'long': {'L': L, 'plants': plants}, 'forms': [rng.choice(['bytes', 'str', 'bytearray', 'single'])]}, 'long-sequence-seams')
 	# bytes.find sub-stream (validates the model of the library call)
 	for j in range(ctx.q(2000, 20000)):
 		n = rng.randint(0, 12)
